@@ -34,6 +34,23 @@ Theorem C44_reads_primary_fault : forall d, replica_consistent d ->
 Proof. exact reads_pfault. Qed.
 Print Assumptions C44_reads_primary_fault.
 
+(* (1t) with time: both bucket calls take time and honour their context; the fallback
+        to the primary runs under the CALLER's context (named assumption, checked by
+        the harness on the deadline the fake primary receives).  Whenever the caller's
+        context is still live when the call returns and the primary itself answers,
+        the dual read is the primary's answer - however long the replica stalled,
+        whether it then succeeded, failed or returned partial bytes; and a cancelled /
+        expired caller context may yield an error but never different bytes. *)
+Theorem C44_reads_match_timed : forall d, replica_consistent d ->
+  (forall k r budget rp pp x t, dual_get_seg_timed d k r budget rp pp = Some (x, t) ->
+     (caller_live budget t -> pl_out pp = POk -> x = mem_get_seg (d_prim d) k r) /\
+     (is_ok x = true -> x = mem_get_seg (d_prim d) k r)) /\
+  (forall k budget rp pp x t, dual_get_idx_timed d k budget rp pp = Some (x, t) ->
+     (caller_live budget t -> pl_out pp = POk -> x = mem_get_idx (d_prim d) k) /\
+     (is_ok x = true -> x = mem_get_idx (d_prim d) k)).
+Proof. exact reads_match_timed. Qed.
+Print Assumptions C44_reads_match_timed.
+
 (* (2) every client call leaves the replica bucket unchanged; reads change neither
        bucket; uploads, deletes, listings and EnsureBucket make no replica call and
        are exactly the primary client's call (same new primary state, same result). *)
@@ -67,3 +84,15 @@ Example C44_nonvacuous :
    replica_consistentb d' = false /\ dual_get_seg d' k1 None false false = ROk [1;2;3;4;5] /\
    mem_get_seg (d_prim d') k1 None = ROk [0;0]).
 Proof. vm_compute. repeat split. Qed.
+
+(* time: a replica that stalls 10 s then fails, caller deadline 60 s, primary 100 ms:
+   the primary's bytes after 10.1 s; a replica stalling for ever with a 5 s deadline: an
+   error at 5 s, never other bytes. *)
+Example C44_nonvacuous_timed :
+  let k1 := [107;49] in
+  let d := run dual0 [mkCall (OUpSeg k1 [1;2;3]) false false] in
+  dual_get_seg_timed d k1 None (Some 60000) (mkPlan (Some 10000) PFail) (mkPlan (Some 100) POk) = Some (ROk [1;2;3], 10100) /\
+  dual_get_seg_timed d k1 None (Some 5000) (mkPlan None POk) (mkPlan (Some 100) POk) = Some (RCtx, 5000) /\
+  dual_get_seg_timed d k1 None None (mkPlan (Some 2000) PPartial) (mkPlan (Some 0) POk) = Some (ROk [1;2;3], 2000).
+Proof. vm_compute. repeat split. Qed.
+
